@@ -155,7 +155,7 @@ def run_gram(pid, tier, rep, deadline_s):
                  'spec': cr['spec'], 'nt': cr['nt'], 't': cr['t'], 'pspec': cr['prec'], 'rspec': cr['rprec'], 'input': cr['input'], 'engine': 'gram', 'grammar': cr['gram']})
     evals = c.get(pid + '.evals', 0) or c.get('grammars', 0)
     nontriv = {'C01': c.get('nontrivial_lr1', 0), 'C02': c.get('nontrivial_lr1', 0), 'C09': c.get('nontrivial_lr1', 0), 'C16': c.get('nontrivial_lr1', 0) + c.get('nontrivial_err', 0),
-               'C08': c.get('nontrivial_err', 0), 'C18': c.get('nontrivial_custom', 0), 'C05': c.get('C05.assignments', 0), 'C11': c.get('grammars', 0) - c.get('grammars_lr1', 0)}.get(pid, 0)
+               'C08': c.get('nontrivial_err', 0), 'C18': c.get('nontrivial_custom', 0), 'C06': c.get('nontrivial_lr1', 0), 'C12': c.get('nontrivial_lr1', 0), 'C05': c.get('C05.assignments', 0), 'C11': c.get('grammars', 0) - c.get('grammars_lr1', 0)}.get(pid, 0)
     rep.coverage = {
         'states': c.get('states', 0), 'transitions': c.get('cells_compared', 0) + c.get('parses', 0),
         'traces_validated_against_impl': c.get('parses', 0),
@@ -258,12 +258,15 @@ def run_rx(pid, tier, rep, deadline_s):
         states, trans, nontriv = c.get('lexer_product_states', 0), c.get('parses', 0), c.get('termsets', 0)
     elif pid == 'C10':
         states, trans, nontriv = c.get('termsets', 0), c.get('parses', 0), c.get('C10.recovered_runs', 0)
+    elif pid == 'C12':
+        states, trans, nontriv = c.get('dfa_states_built', 0) + c.get('termsets', 0), c.get('C12.pattern_evals', 0) + c.get('C12.termset_evals', 0), c.get('C12.pattern_evals', 0) + c.get('C12.termset_evals', 0)
+        ev = nontriv
     else:
         states, trans, nontriv = c.get('C17.evals', 0), c.get('C17.evals', 0) * 2, c.get('C17.malformed', 0) + c.get('C17.valid', 0)
     rep.coverage = {'states': states, 'transitions': trans, 'traces_validated_against_impl': c.get('matches', 0) + c.get('parses', 0) + (c.get('C17.evals', 0) if pid == 'C17' else 0),
                     'samples': tot['samples'][:8] or [{'note': 'see counters'}], 'evaluations': ev, 'distinct_nontrivial': nontriv, 'rule': RX_RULE[pid],
                     'exhaustive': exhaustive, 'bounds': bounds, 'distinct_outcomes': sorted(tot['outcomes'])[:80], 'n_distinct_outcomes': len(tot['outcomes']), 'counters': c,
-                    'what_states_and_transitions_are': {'C03': 'states = reachable (real DFA state, reference DFA state) pairs; transitions = pair edges over all 256 bytes + real dfa_match runs', 'C04': 'states = reachable (lexer state, per-term reference states) product states; transitions = real parses', 'C10': 'states = (term set, grammar) configurations; transitions = real parses', 'C17': 'states = candidate pattern strings; transitions = real pattern-parser runs (two contexts each)'}[pid]}
+                    'what_states_and_transitions_are': {'C03': 'states = reachable (real DFA state, reference DFA state) pairs; transitions = pair edges over all 256 bytes + real dfa_match runs', 'C04': 'states = reachable (lexer state, per-term reference states) product states; transitions = real parses', 'C10': 'states = (term set, grammar) configurations; transitions = real parses', 'C17': 'states = candidate pattern strings; transitions = real pattern-parser runs (two contexts each)', 'C12': 'states = DFA states built by the real builder; transitions = size predictions compared'}[pid]}
     rep.assumptions = ['patterns reach the real front-end through string_view_buffer / a checked user buffer instead of cstring_buffer, and dfa_builder<N> with a large fixed N instead of the predicted size (bound to the user-visible path by the compile-time conformance replays)',
                        'reference regex semantics: /verif/ref/regex.hpp (two independent matchers cross-checked on every short string)']
 
@@ -392,6 +395,88 @@ def run_c07(pid, tier, rep, deadline_s):
                     'what_states_and_transitions_are': 'states = (grammar, input, compiler) cases; transitions = result comparisons + constant evaluations; traces_validated_against_impl = cases whose compile-time value was compared with the run-time value'}
     rep.assumptions = ['black-box programs; compilers: g++ 12 and clang++ 14 as installed']
 
+# ----------------------------------------------------------------------------- composite checks (C06, C12)
+def merge_cov(a, b):
+    if not a: return dict(b)
+    out = dict(a)
+    for k, v in b.items():
+        if k not in out: out[k] = v
+        elif isinstance(v, bool): out[k] = out[k] and v
+        elif isinstance(v, int): out[k] = out[k] + v
+        elif isinstance(v, list): out[k] = out[k] + v
+        elif isinstance(v, dict): out[k] = merge_cov(out[k], v) if all(isinstance(x, (int, dict)) for x in v.values()) else {**out[k], **v}
+        elif isinstance(v, str) and v != out[k]: out[k] = out[k] + ' || ' + v
+    return out
+
+SAN = ['-g', '-fsanitize=address,undefined', '-fno-sanitize-recover=all']
+GRAM_RULE['C06'] = 'E-GRAM part: every LR(1) grammar of the frame bounds x every string up to the bound is parsed through a checked user buffer (records every dereference of end(), every access or iterator formed outside [begin,end]) and, for the frames that instantiate it, through cstring_buffer<N>; the guarded cvector hook watches operator[]/back/pop_back/erase of every fixed-capacity container; results must equal the string_view_buffer run and every parse must finish within a step horizon.'
+GRAM_RULE['C12'] = 'E-GRAM part: for every grammar of the frame bounds the real table construction runs with default limits (a refusal or a capacity failure there means a derived cap is too small); every LR(1) grammar x string is parsed through cstring_buffer<N> (fixed stacks) and compared with the vector-stack run; the depth the documented driver needs is compared with N+EmptyRulesCount+1.'
+
+def run_c06(pid, tier, rep, deadline_s):
+    q = tier == 'quick'
+    cov = {}
+    run_gram('C06', tier, rep, deadline_s); cov = merge_cov(cov, rep.coverage)
+    specs = [dict(name='c06r', src='c06_regex.cpp', args=[4 if q else 6], flags=SAN, compilers=['clang++'], label='regex::expr::match, 6 patterns x strings<=%d over {a,b,c,NUL,0x80}, ASan+UBSan' % (4 if q else 6)),
+             dict(name='c06s', src='c06_safety.cpp', args=[3 if q else 4], flags=SAN, compilers=['clang++'], label='3 compiled grammars x byte strings<=%d x 4 buffer kinds x 3 option sets, ASan+UBSan, + depth sweeps to 1e5' % (3 if q else 4))]
+    totals, samples, bounds, extra = run_progs(pid, rep, specs, deadline_s)
+    cov = merge_cov(cov, {'states': totals['cases'], 'transitions': totals['checks'], 'traces_validated_against_impl': totals['cases'], 'samples': samples, 'evaluations': totals['cases'], 'distinct_nontrivial': extra.get('accepted', 0) + extra.get('matching', 0),
+                          'bounds': bounds, 'exhaustive': all(b['completed'] for b in bounds), 'counters': extra,
+                          'rule': 'Compiled part: regex::expr::match for 6 patterns on every string up to the bound (matching or not) and 3 compiled grammars on every byte string up to the bound over the grammar bytes plus NUL, 0x80/0xff, space and newline, through a checked user buffer, string_view_buffer over an exact-size heap block, string_buffer and cstring_buffer<N>, under AddressSanitizer+UBSan; all buffer kinds must agree. Depth/length sweeps 10..100000 are a one-dimensional sample, not exhaustive.'})
+    rep.coverage = cov
+
+def run_c12(pid, tier, rep, deadline_s):
+    q = tier == 'quick'
+    cov = {}
+    run_gram('C12', tier, rep, deadline_s); cov = merge_cov(cov, rep.coverage)
+    # (a) automaton sizes: the E-RX runs report C12 violations next to C03/C04 ones
+    for sub in ('C03', 'C04'):
+        save_pid = rep.pid
+        run_rx_for(sub, 'C12', tier, rep, deadline_s); cov = merge_cov(cov, rep.coverage)
+    # (c) user-supplied limits around the real counts
+    work = os.path.join(BUILD, 'run-C12lim-%s%s' % (tier, ('-%d' % os.getpid()) if _SCRATCH else '')); shutil.rmtree(work, ignore_errors=True); os.makedirs(work)
+    gen = os.path.join(VERIF, 'gen', 'c12_gen.py'); inc = ['-std=c++17', '-O1', '-DCTPG_VERIF', '-I' + os.path.join(REPO, 'include')]
+    grammars = sh([sys.executable, gen, 'list']).stdout.split()
+    def one(g):
+        pr = os.path.join(work, g + '_probe'); r = sh([sys.executable, gen, 'probe', g, pr + '.cpp'])
+        r = sh(['g++'] + inc + [pr + '.cpp', '-o', pr])
+        if r.returncode != 0: return (g, 'compile', (r.stdout + r.stderr)[-500:])
+        nm = sh([pr]).stdout.split()
+        if len(nm) != 2 or int(nm[0]) < 1: return (g, 'probe', 'could not read the real counts from write_diag_str: %r' % nm)
+        lim = os.path.join(work, g + '_lim'); sh([sys.executable, gen, 'limits', g, nm[0], nm[1], lim + '.cpp'])
+        r = sh(['g++'] + inc + [lim + '.cpp', '-o', lim])
+        if r.returncode != 0: return (g, 'compile', (r.stdout + r.stderr)[-500:])
+        r = sh([lim], timeout=300)
+        try: return (g, 'ok', json.loads((r.stdout.strip().splitlines() or [''])[-1]), nm)
+        except Exception: return (g, 'crash', 'rc=%s %s' % (r.returncode, (r.stdout + r.stderr)[-300:]))
+    from concurrent.futures import ThreadPoolExecutor
+    with ThreadPoolExecutor(max_workers=NCPU) as ex: res = list(ex.map(one, grammars))
+    shutil.rmtree(work, ignore_errors=True)
+    cases = checks = 0; samples = []; bounds = []
+    for r in res:
+        label = 'custom limits around the real counts, grammar %s' % r[0]
+        if r[1] != 'ok':
+            rep.add({'kind': 'custom-limits-' + r[1], 'known': '', 'engine': 'ct', 'summary': '%s: %s' % (label, r[2])}); bounds.append({'pass': label, 'completed': False}); continue
+        out = r[2]; cases += out['cases']; checks += out['checks']
+        bounds.append({'pass': label + ' (states %s, items per state %s)' % tuple(r[3]), 'completed': True})
+        samples.append({'grammar': r[0], 'real_counts': r[3], 'result': out})
+        if out['failures']: rep.add({'kind': 'custom-limits', 'known': '', 'engine': 'ct', 'summary': '%s: %s' % (label, out['first_failure']), 'count': out['failures']})
+    cov = merge_cov(cov, {'states': cases, 'transitions': checks, 'traces_validated_against_impl': cases, 'samples': samples, 'evaluations': cases, 'distinct_nontrivial': cases, 'bounds': bounds,
+                          'exhaustive': all(b['completed'] for b in bounds),
+                          'rule': 'Custom-limits part: for 4 grammars the real state count N and item count M are read from the default build, then the parser is constructed with each state_count_cap in N-2..N+1 and each max_sit_count_per_state_cap in M-2..M+1; every construction must either be rejected (exception) or yield a parser whose diagnostic text and parse results equal the default build; the guarded cvector hook reports silent overruns. Automaton-size part: every pattern / term set explored by C03/C04 compares the size predicted by dfa_size_analyzer (and the sum of the terms\' dfa_size) with the number of states the builder really uses.'})
+    rep.coverage = cov
+
+def run_rx_for(sub, pid, tier, rep, deadline_s):
+    """run the E-RX passes of property `sub` but collect the violations and counters attributed to `pid`"""
+    global rx_passes
+    orig = rx_passes
+    try:
+        rx_passes_sub = orig(sub, tier)
+        rx_passes = lambda p, t: rx_passes_sub
+        RX_RULE.setdefault(pid, '')
+        run_rx(pid, tier, rep, deadline_s)
+    finally:
+        rx_passes = orig
+
 # ----------------------------------------------------------------------------- dispatch
 QUICK_DEADLINE, THOROUGH_DEADLINE = 240, 1500
 
@@ -421,6 +506,8 @@ def main(argv):
         elif pid in RX_PROPS: run_rx(pid, tier, rep, deadline)
         elif pid in PROG_SPECS: run_prog_check(pid, tier, rep, deadline)
         elif pid == 'C07': run_c07(pid, tier, rep, deadline)
+        elif pid == 'C06': run_c06(pid, tier, rep, deadline)
+        elif pid == 'C12': run_c12(pid, tier, rep, deadline)
         else: print('no check for ' + pid); return 2
         return rep.finish()
     except HarnessError as e:
